@@ -1,4 +1,4 @@
-import CardVerif.Model.GinMelds
+import CardModel.Model.GinMelds
 /-!
 # Gin melds, arrangements, lay-offs, ricky value – the rules (C08, C12, C19)
 -/
